@@ -303,3 +303,57 @@ Proof.
   - rewrite followedb_sound. intuition.
   - intuition discriminate.
 Qed.
+
+(* ------------------------------------------------------------------------------------- *)
+(* non-vacuity of the hypotheses of the implication-shaped theorems                         *)
+
+Definition ex_cfg : cfg := mkcfg 100 400 (Some 2).
+
+Lemma ex_cfg_ok : cfg_ok ex_cfg.
+Proof. unfold cfg_ok, ex_cfg; cbn; lia. Qed.
+
+(* first_immediate: a reachable idle state (a window was opened and has expired) *)
+Example first_immediate_nonvacuous :
+  exists s, exec Fixed ex_cfg (init ex_cfg)
+              [LoopTop; Model.Add; TakeToken; HandleToken; LoopTop; Advance 100; TakeTimer;
+               TimerFire; LoopTop] = Some s /\
+    has_timer s = false /\ run s = R_select /\ tokens s = 0 /\ closed s = false /\
+    lock_free Fixed s = true.
+Proof. eexists; split; [vm_compute; reflexivity | repeat split]. Qed.
+
+(* no_add_lost / extension_law / cap_fires: a window is open, two Adds pending, the second
+   token received: the cap (2) is reached *)
+Example cap_nonvacuous :
+  exists s, exec Original ex_cfg (init ex_cfg)
+              [LoopTop; Model.Add; TakeToken; HandleToken; LoopTop; Model.Add; TakeToken;
+               HandleToken; LoopTop; Model.Add; TakeToken] = Some s /\
+    closed s = false /\ 0 < pending s /\ has_timer s = true /\ cap ex_cfg = Some 2 /\
+    2 <= pending s /\ step Original ex_cfg s HandleToken <> None.
+Proof. eexists; split; [vm_compute; reflexivity | repeat split; try (vm_compute; congruence)]. Qed.
+
+(* extension_law: window open, cap not reached *)
+Example extension_nonvacuous :
+  exists s, exec Original ex_cfg (init ex_cfg)
+              [LoopTop; Model.Add; TakeToken; HandleToken; LoopTop; Model.Add; TakeToken] = Some s /\
+    has_timer s = true /\ cap_reached ex_cfg (pending s) = false /\
+    step Original ex_cfg s HandleToken <> None.
+Proof. eexists; split; [vm_compute; reflexivity | repeat split; vm_compute; congruence]. Qed.
+
+(* burst_no_signal: cap unset, window open, a burst of three Adds handled, no expiry *)
+Example burst_nonvacuous :
+  exists s s', exec Original (mkcfg 100 400 None) (init (mkcfg 100 400 None))
+                 [LoopTop; Model.Add; TakeToken; HandleToken; LoopTop] = Some s /\
+    has_timer s = true /\
+    exec Original (mkcfg 100 400 None) s
+      [Model.Add; Model.Add; TakeToken; HandleToken; LoopTop; Model.Add; TakeToken; HandleToken;
+       LoopTop; Advance 50; TakeToken; HandleToken; LoopTop] = Some s' /\
+    pending s' = 3 /\ spawned s' = spawned s.
+Proof. do 2 eexists; split; [vm_compute; reflexivity | repeat split; vm_compute; reflexivity]. Qed.
+
+(* close_waits: a reachable state in which Close's wait ends *)
+Example close_waits_nonvacuous :
+  exists s, exec Original ex_cfg (init ex_cfg)
+              [LoopTop; Model.Add; TakeToken; HandleToken; LoopTop; Model.Add; CloseCall; RunExit;
+               TokenAbort; SignalAbort; CloseLock] = Some s /\
+    step Original ex_cfg s CloseReturn <> None.
+Proof. eexists; split; [vm_compute; reflexivity | vm_compute; congruence]. Qed.
